@@ -5,6 +5,7 @@ from __future__ import annotations
 
 import json
 import os
+import re
 import random
 import subprocess
 import sys
@@ -215,6 +216,30 @@ def permutation_worker(seed):
         if a != b:
             problems.append({"what": "layer rule outcome depends on the order of layers / object layers / listed modules", "outcomes": [a, b], "case": str(c)[:800]})
         fail = fail or a.startswith("FAIL")
+        # overlapping definitions: a module listed by name in one layer that also matches the regex of another layer.
+        # Whatever the outcome is (a verdict or a configuration error), it must not depend on the definition order.
+        named = [(n, p) for n, k, p in c["arch"] if k == "N" and p]
+        if len(c["arch"]) >= 2 and named:
+            ln, mods = rng.choice(named)
+            other_layers = [n for n, _, _ in c["arch"] if n != ln]
+            lo = rng.choice(other_layers)
+            victim = rng.choice(mods)
+            arch3 = []
+            for n, k, p in c["arch"]:
+                if n == lo:
+                    own = p if k == "N" else None
+                    rx = c05.rx_for((own or []) + [victim]) if k == "N" else "(" + p[:-1] + "|" + re.escape(victim) + ")$"
+                    arch3.append((n, "R", rx))
+                else:
+                    arch3.append((n, k, p))
+            c3 = dict(c)
+            c3["arch"] = arch3
+            c4 = dict(c3)
+            c4["arch"] = list(reversed(arch3))
+            a3, a4 = impl_layer(c3), impl_layer(c4)
+            if a3 != a4:
+                problems.append({"what": "layer rule outcome depends on the order in which overlapping layers (a named module that also matches another layer's regex) were defined",
+                                 "outcomes": [a3, a4], "arch": arch3, "lops": c["lops"], "nodes": nodes, "imports": imps})
     return fail, problems
 
 
@@ -275,6 +300,15 @@ def hashseed_workload(seed, n):
     for _ in range(max(1, n // 10)):
         d = c07.make_case(rng)
         out.append(c07._impl(d))
+    # diagrams outside the documented subset that the parser accepts or rejects: one alias declared for two components.
+    # Whatever the parser does with them, it must do the same under every hash seed.
+    from . import c06
+
+    for _ in range(max(2, n // 10)):
+        a, b, c_ = rng.sample(["A", "B", "core", "api", "db", "svc", "util"], 3)
+        lines = [f"[{a}] as x", f"[{b}] as x", rng.choice([f"x --> [{c_}]", f"[{c_}] <-- x", f"[{c_}] -> x"])]
+        rng.shuffle(lines)
+        out.append(c06.impl_parse("@startuml\n" + "\n".join(lines) + "\n@enduml"))
     for _ in range(max(1, n // 20)):
         tree = sc.gen_tree(rng)
         sc.fill_sources(rng, tree, externals=True)
